@@ -17,7 +17,7 @@ func init() {
 		Assumptions: []string{"the small-model domain {0..3} covers every ordering of address, length and capacity"},
 	}, runC20)
 	register("C24", PropertyMeta{
-		Technique: "only-through provenance (data-dependence slice) on the converter result + sibling agreement + decision tables for the ownership and offset guards",
+		Technique:   "only-through provenance (data-dependence slice) on the converter result + sibling agreement + decision tables for the ownership and offset guards",
 		Explanation: "Decides on mem/addressconverter.go and mem/addrconv.go: in both sibling implementations the external address reaches the returned internal address only through `external - offset` (any other use, such as a remainder of the raw address, breaks contiguity whenever the offset is not stripe-aligned); an address below the offset, and an address whose stripe belongs to another element, panics instead of being converted.",
 		NotDecided:  "one-to-one-ness and order preservation as arithmetic facts; agreement between the converter's element selection and the interleaved port mapper's (equal expressions only for round-aligned offsets).",
 		Assumptions: []string{},
@@ -25,14 +25,14 @@ func init() {
 	register("C26", PropertyMeta{
 		Technique: "effect pairing on the per-process list+map (decision tables) + map-iteration classification + save-order provenance",
 		Explanation: "Decides on mem/vm/pagetable.go and pagetable_checkpoint.go: insert pushes to the list and indexes the same key in the map, remove deletes from both, update replaces the list element found through the map, find looks the page-aligned address up; ReverseLookup (and every other map iteration in the package) is order-insensitive; " +
-			"SaveCheckpoint emits each process's pages by traversing its list front to back (never re-sorted), LoadCheckpoint re-pushes them in that order and checks the page size; save/load field symmetry.",
+			"SaveCheckpoint emits each process's pages by traversing its list front to back (never re-sorted), LoadCheckpoint re-pushes them in that order and checks the page size; save/load field symmetry. (comparator-sound) no ordering function is an unsigned difference; (insert-alias) no append(append(X[:i], v), X[i:]...) over one slice.",
 		NotDecided:  "agreement of whole operation histories with a reference map.",
 		Assumptions: []string{"container/list semantics"},
 	}, runC26)
 	register("C28", PropertyMeta{
 		Technique: "decision tables for the key-map and recency-list operations + JSON field symmetry + field ownership",
 		Explanation: "Decides on mem/vm/lruset: Lookup returns the way bound to the key or (0,false); UpdateKey unbinds the old key and binds the new key to the way on every path, in that order (so rebinding a key to itself leaves it bound); Remove unbinds; Evict returns the head of the recency list read before the list is advanced by one, or (0,false) when empty; Visit records the visit and re-inserts the way; " +
-			"the JSON pair carries every field both ways into a fresh decode target; the recency list, visit stamps and key map are written only inside the package.",
+			"the JSON pair carries every field both ways into a fresh decode target; the recency list, visit stamps and key map are written only inside the package. (key-injective) as in C25.",
 		NotDecided:  "recency order against a reference model over long histories.",
 		Assumptions: []string{},
 	}, runC28)
@@ -285,11 +285,15 @@ func runC20(c *Ctx) {
 		if bl == nil || len(tl.Unsupported) > 0 {
 			why = "LoadCheckpoint is outside the analysable fragment"
 		} else {
-			reads := bl.Calls(func(e *Effect) bool { return e.Callee != nil && (e.Callee.Name() == "readUint64" || e.Callee.Name() == "ReadFull") })
+			reads := bl.Calls(func(e *Effect) bool {
+				return e.Callee != nil && (e.Callee.Name() == "readUint64" || e.Callee.Name() == "ReadFull")
+			})
 			if len(reads) != 5 || reads[4].Callee.Name() != "ReadFull" || !strings.Contains(reads[4].Args[1], ".data") {
 				why = "LoadCheckpoint must read capacity, unit size, unit count and then (address, unitSize bytes) per unit"
 			}
-			st := bl.Stores(func(e *Effect) bool { return e.RecvHas(dataF) && len(e.Recv) > 0 && sameObj(e.Recv[len(e.Recv)-1].Obj, dataF) })
+			st := bl.Stores(func(e *Effect) bool {
+				return e.RecvHas(dataF) && len(e.Recv) > 0 && sameObj(e.Recv[len(e.Recv)-1].Obj, dataF)
+			})
 			if len(st) != 1 {
 				why = "LoadCheckpoint must install the decoded units as the storage's contents"
 			}
@@ -392,6 +396,8 @@ func runC24(c *Ctx) {
 }
 
 func runC26(c *Ctx) {
+	insertAliasRule(c, "insert-alias", func(pp string) bool { return pp == pkgPath("mem/vm") })
+	comparatorSoundRule(c, "comparator-sound", func(pp string) bool { return pp == pkgPath("mem/vm") }, 1)
 	p := c.P
 	savedCoversWrittenRule(c, "saved-covers-written", func(pp string) bool { return pp == pkgPath("mem/vm") }, 1)
 	// lookups are read-only: their result is a function of the table's content alone
@@ -577,8 +583,12 @@ func runC26(c *Ctx) {
 	}
 	if f := c.fn("save-order", "mem/vm", "pageTableImpl", "LoadCheckpoint"); f != nil {
 		fn := p.SSAFunc(f)
-		pb := len(CallSites([]*ssa.Function{fn}, func(g *types.Func) bool { return g.Pkg() != nil && g.Pkg().Path() == "container/list" && g.Name() == "PushBack" }))
-		pf := len(CallSites([]*ssa.Function{fn}, func(g *types.Func) bool { return g.Pkg() != nil && g.Pkg().Path() == "container/list" && g.Name() != "PushBack" && g.Name() != "New" }))
+		pb := len(CallSites([]*ssa.Function{fn}, func(g *types.Func) bool {
+			return g.Pkg() != nil && g.Pkg().Path() == "container/list" && g.Name() == "PushBack"
+		}))
+		pf := len(CallSites([]*ssa.Function{fn}, func(g *types.Func) bool {
+			return g.Pkg() != nil && g.Pkg().Path() == "container/list" && g.Name() != "PushBack" && g.Name() != "New"
+		}))
 		c.Check(pb == 1 && pf == 0, "save-order", "mem/vm.pageTableImpl.LoadCheckpoint", p.Decl(f).Pos(), "pages re-pushed at the back in saved order", "LoadCheckpoint must append the saved pages to the list in the saved order")
 	}
 	// symmetry + shape + decode target for this pair
@@ -593,6 +603,7 @@ func runC26(c *Ctx) {
 }
 
 func runC28(c *Ctx) {
+	keyInjectiveRule(c, "key-injective")
 	p := c.P
 	dom := []int{0, 1, 2}
 	kmF := c.field("anchors", "mem/vm/lruset", "Set", "keyMap")
@@ -689,9 +700,13 @@ func runC28(c *Ctx) {
 				ok, why = false, "the way must be stamped with the advanced counter"
 			}
 			// when the way was already listed, the old occurrence is removed
-			hit := r.Atom(func(a *Atom) bool { return a.IsBool && strings.Contains(a.Key, "== wayID") || strings.Contains(a.Key, "wayID ==") })
+			hit := r.Atom(func(a *Atom) bool {
+				return a.IsBool && strings.Contains(a.Key, "== wayID") || strings.Contains(a.Key, "wayID ==")
+			})
 			if hit != nil && hit.B {
-				splice := r.Stores(func(e *Effect) bool { return e.RecvHas(vlF) && strings.Contains(e.Args[0], "append(") && e.Gen < inc[0].Gen })
+				splice := r.Stores(func(e *Effect) bool {
+					return e.RecvHas(vlF) && strings.Contains(e.Args[0], "append(") && e.Gen < inc[0].Gen
+				})
 				if len(splice) == 0 {
 					ok, why = false, "a way that is already in the recency list must be taken out before it is re-inserted (each way is listed once)"
 				}
